@@ -11,8 +11,11 @@ import PharmpyModel.C18.Mfl
 -/
 namespace Pharmpy.C18
 
+/-- decimal digits to a number (kernel-reducible, unlike `String.toNat!`) -/
+def digitsToNat (s : String) : Nat := s.toList.foldl (fun n c => 10 * n + (c.toNat - 48)) 0
+
 /-- `args[0]` of a key, as the int it is for PERIPHERALS keys. -/
-def Key.arg0 (k : Key) : Nat := ((k.drop 1).headD "0").toNat!
+def Key.arg0 (k : Key) : Nat := digitsToNat ((k.drop 1).headD "0")
 
 def Key.isPeripheral (k : Key) : Bool := k.kind == "PERIPHERALS"
 
